@@ -1,0 +1,62 @@
+// MIT License
+//
+// Copyright (c) 2022-2026 GoAkt Team
+//
+// Permission is hereby granted, free of charge, to any person obtaining a copy
+// of this software and associated documentation files (the "Software"), to deal
+// in the Software without restriction, including without limitation the rights
+// to use, copy, modify, merge, publish, distribute, sublicense, and/or sell
+// copies of the Software, and to permit persons to whom the Software is
+// furnished to do so, subject to the following conditions:
+//
+// The above copyright notice and this permission notice shall be included in all
+// copies or substantial portions of the Software.
+//
+// THE SOFTWARE IS PROVIDED "AS IS", WITHOUT WARRANTY OF ANY KIND, EXPRESS OR
+// IMPLIED, INCLUDING BUT NOT LIMITED TO THE WARRANTIES OF MERCHANTABILITY,
+// FITNESS FOR A PARTICULAR PURPOSE AND NONINFRINGEMENT. IN NO EVENT SHALL THE
+// AUTHORS OR COPYRIGHT HOLDERS BE LIABLE FOR ANY CLAIM, DAMAGES OR OTHER
+// LIABILITY, WHETHER IN AN ACTION OF CONTRACT, TORT OR OTHERWISE, ARISING FROM,
+// OUT OF OR IN CONNECTION WITH THE SOFTWARE OR THE USE OR OTHER DEALINGS IN THE
+// SOFTWARE.
+
+//go:build verif
+
+package actor
+
+import "time"
+
+// VerifBackoffDelay exposes backoffDelay. Verification harness only.
+func VerifBackoffDelay(faults int64, initialDelay, maxDelay time.Duration) time.Duration {
+	return backoffDelay(faults, initialDelay, maxDelay)
+}
+
+// VerifFaultCounter exposes the consecutive-fault bookkeeping of a PID
+// (recordFault) on a bare PID that is not attached to any actor system.
+// Verification harness only.
+type VerifFaultCounter struct {
+	pid *PID
+}
+
+// NewVerifFaultCounter returns a counter backed by a zero-valued PID.
+func NewVerifFaultCounter() *VerifFaultCounter {
+	return &VerifFaultCounter{pid: &PID{}}
+}
+
+// Record calls the real recordFault with the given reset window.
+func (c *VerifFaultCounter) Record(window time.Duration) int64 {
+	return c.pid.recordFault(window)
+}
+
+// Age moves the timestamp of the latest fault d into the past (when there is
+// one), which is how a harness lets time pass for recordFault's wall clock.
+func (c *VerifFaultCounter) Age(d time.Duration) {
+	if last := c.pid.lastFaultAtNano.Load(); last > 0 {
+		c.pid.lastFaultAtNano.Store(last - d.Nanoseconds())
+	}
+}
+
+// State returns the consecutive fault count and the timestamp of the latest fault.
+func (c *VerifFaultCounter) State() (faults, lastFaultAtNano int64) {
+	return c.pid.consecutiveFaults.Load(), c.pid.lastFaultAtNano.Load()
+}
